@@ -1,9 +1,10 @@
 /-
   C02 — draft selection: which `$schema` values select draft-07, which are refused, and what changes under draft-07
   (`$ref` siblings ignored, array-form `items` / `additionalItems`, `dependencies`).
-  Property theorems only (helper lemmas: JSV/Proofs/InvDraft.lean).
+  Property theorems only (helper lemmas: JSV/Proofs/InvDraft.lean, JSV/Proofs/ResDraft.lean).
 -/
 import JSV.Proofs.InvDraft
+import JSV.Proofs.ResDraft
 import JSV.Props.C01
 namespace JSV.C02
 open JSV Go GoVal Refine
@@ -171,6 +172,117 @@ theorem draft2020_model_ignores (env : VEnv) (hd : env.draft = .d2020) : ∀ fue
     Go.validateFuel { env with st := env.st.map Inv.erase7only } fuel stack i s = Go.validateFuel env fuel stack i s :=
   Inv.validateFuel_d2020_ignores env hd
 
+/-! ## documents loaded through `$ref` -/
+
+/-- the draft a document with root object `rn` is read under, `inherit` being the draft of the referring document:
+    what its `$schema` selects, and `inherit` when it declares none (resolver.resolve) -/
+theorem docDraft_spec (env : Go.Env) (rn : Node) (inherit : Draft) :
+    (rn.schema = "" → RDraft.docDraft env rn inherit = inherit) ∧
+    (rn.schema ≠ "" → RDraft.docDraft env rn inherit = Go.detectDraft env rn.schema) :=
+  ⟨RDraft.docDraft_none env rn inherit, RDraft.docDraft_some env rn inherit⟩
+
+/-- resolver.resolve, run on the top document `root` with inherited draft `inh` (Schema.Resolve: 2020-12): in the
+    final state the Resolved of `root` has the draft `docDraft … inh`, and the Resolved of every other (Loader)
+    document `r` has the draft `docDraft … dp.draft` of a Resolved `dp` of another document that referred to it (its
+    map of infos contains `r`: resolveRef merges the maps of the documents it loads).
+    Assumption: the Loader returns a fresh document for every URI (`LoaderFresh`); without it a document may be
+    resolved twice, the second time replacing the first Resolved. -/
+theorem resolveDoc_doc_draft (env : Go.Env) (fuel : Nat) (root : NodeId) (b : Uri.Url) (inh : Draft) (s : RState)
+    (hfresh : RInv.LoaderFresh env root) (h : Go.resolveDoc env fuel root b inh {} = .ok s) :
+    ∀ r d, s.doc? r = some d → ∃ rn, env.st.get? r = some rn ∧
+      (r = root → d.draft = RDraft.docDraft env rn inh) ∧
+      (r ≠ root → ∃ p dp, s.doc? p = some dp ∧ p ≠ r ∧ r ∈ dp.known ∧ d.draft = RDraft.docDraft env rn dp.draft) := by
+  obtain ⟨_, _, ⟨rn, d0, hrn, hd0, hdr0, _⟩, hothers⟩ :=
+    RDraft.resolveDoc_dr env root (RDraft.LoaderFresh.inj hfresh) fuel root b inh {} s h
+      (RInv.logOk_init.weaken _) (by intro r hr; simp [RState.doc?] at hr) (Or.inl rfl) (by simp [RState.doc?])
+  intro r d hd
+  by_cases e : r = root
+  · subst e
+    rw [hd0] at hd
+    simp only [Option.some.injEq] at hd
+    subst hd
+    exact ⟨rn, hrn, fun _ => hdr0, fun hne => absurd rfl hne⟩
+  · obtain ⟨p, _, rn', dp, h1, h2, h3, h4, h5⟩ := hothers r d e (by simp [RState.doc?]) hd
+    exact ⟨rn', h1, fun h => absurd h e, fun _ => ⟨p, dp, h2, h3, h4, h5⟩⟩
+
+/-- C02 for one document: after a successful Resolve, a Loader document whose root declares no `$schema` has the
+    draft of a document that referred to it -/
+theorem loaded_doc_draft (env : Go.Env) (fuel : Nat) (root : NodeId) (base : String) (rs : Resolved)
+    (hfresh : RInv.LoaderFresh env root) (h : Go.resolve env fuel root base = .ok rs) :
+    ∃ s b, Go.resolveDoc env fuel root b .d2020 {} = .ok s ∧ rs.log = s.log ∧
+      (∃ d, s.doc? root = some d ∧ rs.draft = d.draft) ∧
+      ∀ r d rn, s.doc? r = some d → r ≠ root → env.st.get? r = some rn → rn.schema = "" →
+        ∃ p dp, s.doc? p = some dp ∧ p ≠ r ∧ r ∈ dp.known ∧ d.draft = dp.draft := by
+  obtain ⟨s, b, d0, _, hs, hd0, _, hdr, hlog, _⟩ := RInv.resolve_ok' env fuel root base rs h
+  refine ⟨s, b, hs, hlog, ⟨d0, hd0, hdr⟩, ?_⟩
+  intro r d rn hd hne hrn hschema
+  obtain ⟨rn', hrn', _, hp⟩ := resolveDoc_doc_draft env fuel root b .d2020 s hfresh hs r d hd
+  rw [hrn] at hrn'
+  simp only [Option.some.injEq] at hrn'
+  subst hrn'
+  obtain ⟨p, dp, h1, h2, h3, h4⟩ := hp hne
+  exact ⟨p, dp, h1, h2, h3, by rw [h4, RDraft.docDraft_none env rn dp.draft hschema]⟩
+
+/-- no assumption on the Loader: if the top document is read under `D` and every Loader document declares no
+    `$schema` or one that selects `D`, every Resolved of the final state has draft `D` -/
+theorem loaded_chain_draft (env : Go.Env) (D : Draft) (fuel : Nat) (root : NodeId) (b : Uri.Url) (inh : Draft)
+    (s : RState) (h : Go.resolveDoc env fuel root b inh {} = .ok s)
+    (hroot : ∀ rn, env.st.get? root = some rn → RDraft.docDraft env rn inh = D)
+    (hload : ∀ tbl k r rn, env.loader = some tbl → Json.lookup k tbl = some (.doc r) → env.st.get? r = some rn →
+      rn.schema = "" ∨ Go.detectDraft env rn.schema = D) :
+    ∀ d ∈ s.docs, d.draft = D := by
+  refine RDraft.resolveDoc_all env D ?_ fuel root b inh {} s h hroot (RDraft.allDraft_init D)
+  intro tbl k r htbl hk rn hrn
+  unfold RDraft.docDraft
+  rcases hload tbl k r rn htbl hk hrn with e | e
+  · rw [e]; rfl
+  · rw [e]; split <;> rfl
+
+/-- C02: a draft-07 root, Loader documents without `$schema`: everything is read under draft-07 -/
+theorem loaded_chain_draft7 (env : Go.Env) (hd : env.draft7URIs = Generated.detectDraft7) (fuel : Nat)
+    (root : NodeId) (base : String) (rs : Resolved) (rn : Node) (h : Go.resolve env fuel root base = .ok rs)
+    (hrn : env.st.get? root = some rn) (h7 : rn.schema ∈ Generated.detectDraft7)
+    (hload : ∀ tbl k r n, env.loader = some tbl → Json.lookup k tbl = some (.doc r) → env.st.get? r = some n →
+      n.schema = "") :
+    rs.draft = .d7 ∧ ∃ s b, Go.resolveDoc env fuel root b .d2020 {} = .ok s ∧ rs.log = s.log ∧
+      ∀ d ∈ s.docs, d.draft = .d7 := by
+  obtain ⟨s, b, d0, _, hs, hd0, _, hdr, hlog, _⟩ := RInv.resolve_ok' env fuel root base rs h
+  have hall : ∀ d ∈ s.docs, d.draft = .d7 := by
+    refine loaded_chain_draft env .d7 fuel root b .d2020 s hs ?_
+      (fun tbl k r n htbl hk hn => Or.inl (hload tbl k r n htbl hk hn))
+    intro rn' hrn'
+    rw [hrn] at hrn'
+    simp only [Option.some.injEq] at hrn'
+    subst hrn'
+    have hne : rn.schema ≠ "" := by
+      intro e; rw [e] at h7; revert h7; decide
+    rw [RDraft.docDraft_some env rn _ hne]
+    exact (detectDraft_spec env hd rn.schema).2 h7
+  exact ⟨by rw [hdr]; exact hall d0 (RDraft.doc?_mem s root d0 hd0), s, b, hs, hlog, hall⟩
+
+/-- … and symmetrically: a root that does not select draft-07 (no `$schema`, or the 2020-12 URI), Loader documents
+    without `$schema`: everything is read under 2020-12 -/
+theorem loaded_chain_draft2020 (env : Go.Env) (hd : env.draft7URIs = Generated.detectDraft7) (fuel : Nat)
+    (root : NodeId) (base : String) (rs : Resolved) (rn : Node) (h : Go.resolve env fuel root base = .ok rs)
+    (hrn : env.st.get? root = some rn) (h20 : rn.schema ∉ Generated.detectDraft7)
+    (hload : ∀ tbl k r n, env.loader = some tbl → Json.lookup k tbl = some (.doc r) → env.st.get? r = some n →
+      n.schema = "") :
+    rs.draft = .d2020 ∧ ∃ s b, Go.resolveDoc env fuel root b .d2020 {} = .ok s ∧ rs.log = s.log ∧
+      ∀ d ∈ s.docs, d.draft = .d2020 := by
+  obtain ⟨s, b, d0, _, hs, hd0, _, hdr, hlog, _⟩ := RInv.resolve_ok' env fuel root base rs h
+  have hall : ∀ d ∈ s.docs, d.draft = .d2020 := by
+    refine loaded_chain_draft env .d2020 fuel root b .d2020 s hs ?_
+      (fun tbl k r n htbl hk hn => Or.inl (hload tbl k r n htbl hk hn))
+    intro rn' hrn'
+    rw [hrn] at hrn'
+    simp only [Option.some.injEq] at hrn'
+    subst hrn'
+    unfold RDraft.docDraft
+    split
+    · rfl
+    · exact (detectDraft_2020 env hd rn.schema).2 h20
+  exact ⟨by rw [hdr]; exact hall d0 (RDraft.doc?_mem s root d0 hd0), s, b, hs, hlog, hall⟩
+
 /-! ## The statements are not vacuous -/
 
 def exREnv : Go.Env := { st := #[], reOk := fun _ => true, loader := none }
@@ -232,5 +344,48 @@ example : Spec.valid (specEnvOf { exEnv2 with draft := .d2020 }) 4 0 (.arr [.num
 example : Spec.valid (specEnvOf { exEnv2 with draft := .d2020 }) 4 0 (.obj [("a", .null)]) = some true := by decide
 example : Go.validate exEnv2 [""] 4 0 (GoVal.ofJson (.arr [.str "x", .null])) = .err := by decide
 example : Go.validate { exEnv2 with draft := .d2020 } [""] 4 0 (GoVal.ofJson (.arr [.num 1, .null])) = .ok () := by decide
+
+/-- a chain root (draft-07) → `a.json` (no `$schema`) → `b.json` (no `$schema`, `{"$id":"#foo"}`: a fragment-only
+    `$id`, an anchor under draft-07 and an error under 2020-12) -/
+def chainStore (rootSchema : String) : Store := #[
+  { schema := rootSchema, ref := "a.json" },
+  { ref := "b.json" },
+  { id := "#foo" } ]
+def chainEnv (rootSchema : String) : Go.Env :=
+  { st := chainStore rootSchema, reOk := fun _ => true,
+    loader := some [("http://x/a.json", .doc 1), ("http://x/b.json", .doc 2)] }
+
+/-- draft-07 root: `b.json` is read under draft-07, two hops away from the `$schema` -/
+example : ((Go.resolve (chainEnv "http://json-schema.org/draft-07/schema#") 5 0 "http://x/root.json").bind fun rs =>
+      .ok (rs.draft, rs.log)) = .ok (.d7, ["http://x/a.json", "http://x/b.json"]) := by
+  decide +kernel
+example : ((Go.resolveDoc (chainEnv "http://json-schema.org/draft-07/schema#") 5 0
+      { scheme := "http", host := "x", path := "/root.json" } .d2020 {}).bind fun s =>
+      .ok (s.docs.map fun d => (d.root, d.draft))) = .ok [(0, .d7), (1, .d7), (2, .d7)] := by
+  decide +kernel
+/-- the same chain under a 2020-12 root: `b.json` is read under 2020-12 and refused -/
+example : ((Go.resolve (chainEnv "https://json-schema.org/draft/2020-12/schema") 5 0 "http://x/root.json").bind fun rs =>
+      .ok rs.log) = .err := by
+  decide +kernel
+example : ((Go.resolve (chainEnv "") 5 0 "http://x/root.json").bind fun rs => .ok rs.log) = .err := by
+  decide +kernel
+/-- `loaded_chain_draft7` applied -/
+example (rs : Resolved) (h : Go.resolve (chainEnv "http://json-schema.org/draft-07/schema#") 5 0 "http://x/root.json" = .ok rs) :
+    rs.draft = .d7 :=
+  (loaded_chain_draft7 _ rfl 5 0 _ rs _ h rfl (by decide) (by
+    intro tbl k r n htbl hk hn
+    have htbl' : tbl = [("http://x/a.json", .doc 1), ("http://x/b.json", .doc 2)] := by
+      simp only [chainEnv, Option.some.injEq] at htbl; exact htbl.symm
+    subst htbl'
+    simp only [Json.lookup_cons, Json.lookup_nil] at hk
+    split at hk
+    · simp only [Option.some.injEq, LoaderResult.doc.injEq] at hk; subst hk
+      have e : n = { ref := "b.json" } := Option.some.inj (hn.symm.trans rfl)
+      subst e; rfl
+    · split at hk
+      · simp only [Option.some.injEq, LoaderResult.doc.injEq] at hk; subst hk
+        have e : n = { id := "#foo" } := Option.some.inj (hn.symm.trans rfl)
+        subst e; rfl
+      · cases hk)).1
 
 end JSV.C02
